@@ -337,6 +337,10 @@ class FnVerifier(ExprMixin, StmtMixin, CallMixin):
         """writes are allowed to objects allocated during this call or listed in `modifies`"""
         if self.specmode:
             return
+        if st.tags.get('published'):
+            self.oblige('publication.' + self.label(what, node), st, z3.Not(z3.Select(self.entry.H(key_alloc()), r)), node, kind='frame',
+                        text='write to a pre-existing object after the shared field %s was published (line %d): another thread may observe the half-built state'
+                        % st.tags['published'])
         fresh_here = z3.Not(z3.Select(self.entry.H(key_alloc()), r))
         ok = z3.Or(fresh_here, *[self.in_mod(r, m) for m in self.modset])
         self.oblige('frame.' + self.label(what, node), st, ok, node, kind='frame',
